@@ -3,7 +3,7 @@
 # (/tmp/seed_<Cxx>): test suite passes with it, demo fails with it and passes without it; then copy it to
 # /verif/seeded/<Cxx>/. Development tool, not a MANIFEST command.
 id="$1"; shift; demo="$*"
-wt=/tmp/seed_$id
+wt=${SEED_WT:-/tmp/seed_$id}
 cd "$wt" || exit 2
 export CARGO_NET_OFFLINE=true
 [ -f seed/patch.diff ] || { echo "no seed/patch.diff"; exit 2; }
@@ -19,5 +19,5 @@ echo "== demo without the change"; timeout 300 bash -c "$demo" > /tmp/seed_${id}
 git apply seed/patch.diff
 echo "SUMMARY id=$id tests_passed=$passed tests_failed=$failed demo_with=$with demo_without=$without"
 if [ "$with" != "0" ] && [ "$without" = "0" ] && [ "$failed" = "0" ] && [ "$passed" = "163" ]; then
-  mkdir -p /verif/seeded/$id && cp seed/* /verif/seeded/$id/ && echo "CONFIRMED: copied to /verif/seeded/$id"
+  mkdir -p /verif/seeded/${SEED_NAME:-$id} && cp seed/* /verif/seeded/${SEED_NAME:-$id}/ && echo "CONFIRMED: copied to /verif/seeded/${SEED_NAME:-$id}"
 else echo "NOT CONFIRMED"; fi
